@@ -17,7 +17,7 @@ Lemma established_sound_refuted_required :
     r_class r = ROk /\ pending (final (c_feats c) (c_ws c) (mon0 bits) (trace r)).
 Proof.
   exists cfg_ab, 0%N, [hdr; mkItem false (PFeatures [FC xa (str "a") true false; FC xb (str "b") true false])], [],
-         [mkO st_Ready false false], [xa].
+         [mkO st_Ready false false RWWrap], [xa].
   split; [vm_compute; reflexivity|]. exists fb. split; vm_compute; auto.
 Qed.
 
@@ -25,10 +25,10 @@ Lemma established_sound_false : ~ established_sound_statement.
 Proof.
   intro S.
   pose proof (S cfg_ab 0%N [hdr; mkItem false (PFeatures [FC xa (str "a") true false; FC xb (str "b") true false])] []
-              [mkO st_Ready false false] [xa]) as X.
+              [mkO st_Ready false false RWWrap] [xa]) as X.
   unfold established_sound in X.
   assert (A : r_class (run cfg_ab 0 [hdr; mkItem false (PFeatures [FC xa (str "a") true false; FC xb (str "b") true false])] []
-              [mkO st_Ready false false] [xa]) = ROk) by (vm_compute; reflexivity).
+              [mkO st_Ready false false RWWrap] [xa]) = ROk) by (vm_compute; reflexivity).
   destruct (X A) as (_ & _ & _ & B). apply B. exists fb. split; vm_compute; auto.
 Qed.
 
@@ -44,6 +44,15 @@ Lemma tbl_builtin_masks :
   (ft_bind_nec = st_Authn /\ ft_bind_proh = st_Ready /\ ft_bind_negotiable = true) /\
   (ft_bidi_nec = st_Secure /\ ft_bidi_proh = st_Authn) /\
   ft_starttls_space = ns_StartTLS.
+Proof. vm_compute. repeat split; reflexivity. Qed.
+
+(* every assignment to s.state in session.go, features.go and negotiator.go is
+   `|=`, except exactly one: `s.state &^= Ready` in negotiateSession (the error
+   return); in particular the restart block clears nothing *)
+Lemma tbl_state_writes :
+  forallb (fun w => write_adds w || write_is_ready_clear w) state_writes = true /\
+  length (filter write_is_ready_clear state_writes) = 1 /\
+  length (filter (fun w => negb (write_adds w)) state_writes) = 1.
 Proof. vm_compute. repeat split; reflexivity. Qed.
 
 (* with those masks the built-in features can only run in the order STARTTLS, SASL, bind *)
@@ -169,8 +178,8 @@ Lemma voluntary_first_literal_refuted :
     cand (q_negd q) st (false, g) = true.
 Proof.
   exists cfg_w6, 0%N, [hdr; mkItem false (PFeatures [FC xa (str "a") false false; FC xa (str "a2") false false; FC xc (str "c") true false])], [],
-         [mkO 0%N false false], [xc].
-  exists (firstn 6 (trace w6_run)), (skipn 7 (trace w6_run)), fr3, 0%N, (mkO 0%N false false), fv_a.
+         [mkO 0%N false false RWWrap], [xc].
+  exists (firstn 6 (trace w6_run)), (skipn 7 (trace w6_run)), fr3, 0%N, (mkO 0%N false false RWWrap), fv_a.
   split; [vm_compute; reflexivity|]. vm_compute. auto 10.
 Qed.
 
